@@ -17,7 +17,8 @@ func init() {
 		Doc: `frame of reference of re-aligned hits: obialign.LocatePattern returns offsets relative to the fragment S[lo:hi] it is given. At every call site the absolute start and
 end must be lo + from and lo + to, with lo the value that was the low bound of the slice: lo may not be reassigned between the slicing and either use (a start that has already
 been translated must not serve as the base of the end). FR-clamp: the bounds of the fragment are clamped with max(·,0) and min(·,Len()) before slicing, so every reported span
-lies inside the sequence.`,
+lies inside the sequence, and the low bound is also clamped to the beginning of the search window (the first integer parameter of the function): a re-aligned match does not start before the
+window it was searched in.`,
 		Run: runFR,
 	})
 }
@@ -188,6 +189,33 @@ func runFR(c *Ctx, s *Sink) {
 				}
 				if !clampOK(lo, "max") {
 					problems = append(problems, "the low bound of the fragment is not clamped with max(·, 0) before slicing")
+				} else {
+					// FR-window: the window of the search (first integer parameter: its beginning) bounds the fragment too
+					var begin types.Object
+					for _, id := range flattenParams(fd.Type.Params) {
+						if id == nil || begin != nil {
+							continue
+						}
+						if b, ok := info.ObjectOf(id).Type().Underlying().(*types.Basic); ok && b.Info()&types.IsInteger != 0 {
+							begin = info.ObjectOf(id)
+						}
+					}
+					if begin != nil {
+						inWindow := false
+						for _, st2 := range list[:i] {
+							if a2, isA := st2.(*ast.AssignStmt); isA && len(a2.Lhs) == 1 && rootObj(info, a2.Lhs[0]) == lo && a2.Pos() < slPos {
+								ast.Inspect(a2.Rhs[0], func(m ast.Node) bool {
+									if id, ok := m.(*ast.Ident); ok && info.Uses[id] == begin {
+										inWindow = true
+									}
+									return true
+								})
+							}
+						}
+						if !inWindow {
+							problems = append(problems, "the low bound of the fragment is clamped to 0 but not to the beginning of the search window ("+begin.Name()+"): a hit at the start of the window is re-aligned with the bases that precede the window — primer GGGCAATCCTGAGCCAA lacking its first G behind an 8 nt tag ending in g, searched from 8 with 2 errors: the match is reported at [7,24) with 0 error, outside the window (obimultiplex then reads a 7-base tag), instead of [8,24) with 1 error")
+						}
+					}
 				}
 				if !clampOK(hi, "min") {
 					problems = append(problems, "the high bound of the fragment is not clamped with min(·, Len()) before slicing")
